@@ -51,7 +51,7 @@ let show_obs = function
 
 let show_phase = function
   | M.PAccepted -> "accepted" | M.PHasSvc -> "hassvc" | M.PAssigned -> "assigned" | M.PFailed -> "failed"
-  | M.PRunning -> "running" | M.PExited s -> "exited:" ^ show_status s | M.PFinished s -> "finished:" ^ show_status s
+  | M.PRunning -> "running" | M.PStopping s -> "stopping:" ^ show_status s | M.PExited s -> "exited:" ^ show_status s | M.PFinished s -> "finished:" ^ show_status s
   | M.PDoneOk s -> "done:" ^ show_status s | M.PDoneFail -> "done:assignerfail"
 let show_state (s : M.state) =
   Printf.sprintf "{conns=[%s] wg=%d acc=%s ctx=%b closes=[%s]}"
